@@ -34,6 +34,9 @@ use c04p::{probe, ty};
 use c04t1 as tab1;
 use c04t2 as tab2;
 use c04t3 as tab3;
+use c04t4 as tab4;
+use c04t5 as tab5;
+use c04t6 as tab6;
 
 use genr::{Expect, Pkg, Sigd, Target};
 use probe::{Got, Probe, Table};
@@ -179,26 +182,78 @@ fn err_category(msg: &str) -> &'static str {
     }
 }
 
-struct C04;
+/// `fn() -> Verdict<A, R>` over all payload types (tier-independent)
+fn table_inferred() -> Table {
+    let mut v: Table = vec![];
+    tab4::fill(&mut v);
+    tab5::fill(&mut v);
+    tab6::fill(&mut v);
+    let mut seen = std::collections::HashSet::new();
+    v.retain(|p| seen.insert((p.params(), p.ret())));
+    v
+}
 
-impl C04 {
-    fn n_probes(&self, tier: Tier) -> usize {
-        table(tier).len()
+/// Two families of units: the main package x the main probe table, and the
+/// inferred-payload package x the Verdict<A, R> probe table.
+#[derive(Clone, Copy, PartialEq, Debug)]
+enum Fam {
+    Main,
+    Inferred,
+}
+
+impl Fam {
+    fn ppu(self) -> usize {
+        match self {
+            Fam::Main => PROBES_PER_UNIT,
+            Fam::Inferred => 24,
+        }
+    }
+    fn tag(self) -> &'static str {
+        match self {
+            Fam::Main => "main",
+            Fam::Inferred => "inferred",
+        }
+    }
+    fn table(self, tier: Tier) -> Table {
+        match self {
+            Fam::Main => table(tier),
+            Fam::Inferred => table_inferred(),
+        }
+    }
+    fn package(self, tier: Tier) -> Pkg {
+        match self {
+            Fam::Main => genr::package(tier),
+            Fam::Inferred => genr::inferred_package(),
+        }
+    }
+    fn units(self, tier: Tier) -> usize {
+        self.table(tier).len().div_ceil(self.ppu())
     }
 }
+
+/// global unit number -> (family, unit within the family)
+fn locate(tier: Tier, unit: usize) -> (Fam, usize) {
+    let n = Fam::Main.units(tier);
+    if unit < n { (Fam::Main, unit) } else { (Fam::Inferred, unit - n) }
+}
+
+struct C04;
 
 impl Check for C04 {
     fn id(&self) -> &'static str {
         "C04"
     }
     fn units(&self, cfg: &Cfg) -> usize {
-        self.n_probes(cfg.tier).div_ceil(PROBES_PER_UNIT)
+        Fam::Main.units(cfg.tier) + Fam::Inferred.units(cfg.tier)
     }
 
     fn run_unit(&self, unit: usize, cx: &mut Cx) {
         let tier = cx.cfg.tier;
-        let probes = table(tier);
-        let p = genr::package(tier);
+        let global_unit = unit;
+        let (fam, unit) = locate(tier, global_unit);
+        let ppu = fam.ppu();
+        let probes = fam.table(tier);
+        let p = fam.package(tier);
         if !cx.case(SUB_SETUP) {
             return;
         }
@@ -208,7 +263,7 @@ impl Check for C04 {
                 cx.violation(
                     "compile",
                     SUB_SETUP,
-                    json!({"kind": "setup", "root": p.root, "sub": p.sub}),
+                    json!({"kind": "setup", "family": fam.tag(), "root": p.root, "sub": p.sub}),
                     json!("the generated package compiles"),
                     json!(e),
                 );
@@ -226,19 +281,19 @@ impl Check for C04 {
                     cx.violation(
                         "missing-key",
                         SUB_SETUP,
-                        json!({"kind": "setup", "name": t.name, "item": t.src}),
+                        json!({"kind": "setup", "family": fam.tag(), "name": t.name, "item": t.src}),
                         json!("the function is listed among the module's functions"),
                         json!("not listed"),
                     );
                 }
             }
-            cx.count("module_keys", keys.len() as u64);
-            cx.count("module_keys_not_from_script", (targets.len() - n_static) as u64);
+            cx.count(&format!("module_keys_{}", fam.tag()), keys.len() as u64);
+            cx.count(&format!("module_keys_not_from_script_{}", fam.tag()), (targets.len() - n_static) as u64);
         }
 
         let mut samples = 0;
-        let lo = unit * PROBES_PER_UNIT;
-        let hi = (lo + PROBES_PER_UNIT).min(probes.len());
+        let lo = unit * ppu;
+        let hi = (lo + ppu).min(probes.len());
         for pi in lo..hi {
             let probe = &*probes[pi];
             let (pp, pr) = (probe.params(), probe.ret());
@@ -281,7 +336,7 @@ impl Check for C04 {
                 };
                 if let Some(s) = &t.sig {
                     if s.params.len() == pp.len() {
-                        cx.nontrivial(mix(pi as u64, ti as u64));
+                        cx.nontrivial(mix(mix(fam as u64, pi as u64), ti as u64));
                     }
                 }
                 match got {
@@ -317,7 +372,7 @@ impl Check for C04 {
                         if t.expect == Expect::Unspecified {
                             // which type it is is open, but it can be one type only (see finish)
                             cx.unspecified(1);
-                            cx.set(&format!("ok-under/{}", t.name), pi as u64);
+                            cx.set(&format!("ok-under/{}/{}", fam.tag(), t.name), pi as u64);
                             cx.note(format!("{} ({}) is retrievable as {}", t.name, t.src, sig_rust(&pp, &pr)));
                             // whatever type the implementation chose, the handle must work
                             if let Some(call) = call {
@@ -339,6 +394,9 @@ impl Check for C04 {
                             // never call through a handle of the wrong type
                             continue;
                         }
+                        if fam == Fam::Inferred {
+                            cx.count("inferred_payload_handles", 1);
+                        }
                         if samples < 2 && ti % 7 == 3 {
                             samples += 1;
                             cx.sample(case_json(probe, t, "get"));
@@ -359,9 +417,10 @@ impl Check for C04 {
             return json!({"kind": "setup", "note": "compiling the generated package"});
         }
         let (pi, ti, action) = dec(sub);
-        let probes = table(cfg.tier);
-        let p = genr::package(cfg.tier);
-        let Some(probe) = probes.get(unit * PROBES_PER_UNIT + pi) else {
+        let (fam, unit) = locate(cfg.tier, unit);
+        let probes = fam.table(cfg.tier);
+        let p = fam.package(cfg.tier);
+        let Some(probe) = probes.get(unit * fam.ppu() + pi) else {
             return json!({"kind": "?", "sub": sub.to_string()});
         };
         let action = if action == 0 { "get" } else { "call" };
@@ -379,10 +438,16 @@ impl Check for C04 {
     fn finish(&self, cfg: &Cfg, agg: &mut vcore::Aggregate) {
         // A function whose signature the documentation leaves open is still
         // obtainable under one Rust function type at most.
-        let probes = table(cfg.tier);
         let mut extra = vec![];
         for (k, set) in &agg.sets {
-            let Some(name) = k.strip_prefix("ok-under/") else { continue };
+            let Some(rest) = k.strip_prefix("ok-under/") else { continue };
+            let (fam, name) = match rest.split_once('/') {
+                Some(("inferred", n)) => (Fam::Inferred, n),
+                Some((_, n)) => (Fam::Main, n),
+                None => (Fam::Main, rest),
+            };
+            let probes = fam.table(cfg.tier);
+            let first_unit = if fam == Fam::Main { 0 } else { Fam::Main.units(cfg.tier) };
             if set.len() > 1 {
                 let mut idx: Vec<u64> = set.iter().copied().collect();
                 idx.sort();
@@ -393,7 +458,7 @@ impl Check for C04 {
                     .collect();
                 extra.push(Violation {
                     class: "two-signatures".into(),
-                    unit: idx[0] as usize / PROBES_PER_UNIT,
+                    unit: first_unit + idx[0] as usize / fam.ppu(),
                     sub: vcore::SUB_NONE,
                     case: json!({"kind": "filtermap", "name": name, "retrievable_as": under}),
                     expected: json!("retrievable under one Rust function type at most"),
@@ -415,11 +480,14 @@ impl Check for C04 {
         let pg = ty::probe_grammar(cfg.tier);
         let p = genr::package(cfg.tier);
         Meta {
-            rule: "every target (a name + the signature the generator knows it has, or 'nothing') x every Rust function type of the probe table, requested through Package::get_function; Ok iff parameter lists and return types are structurally equal descriptors; never a panic; handles obtained on the depth<=1 diagonal are called once. Script side: p_S/r_S for every S of the script grammar (quick: 132 G1 types + all 456 depth-2 nestings over the 6-leaf set; thorough: G1 + every type of depth <= 2 over the 6-leaf set with at most one non-leaf argument per binary constructor), 57 filtermaps, 38 arity functions, tests, script-declared and shadowing types, a submodule. Rust side: fn(R) and fn() -> R for every R of the probe grammar (quick: G1 + the 24 types U<W<L>>, U, W in {Option, List}; thorough: G1 + 96 depth-2 types), 36 arity signatures, types unknown to the runtime. Names derived from module keys that are not script functions (generated helpers) are requested under the flat signatures only. A pair is non-trivial when the name designates a script function and the requested type has the same number of parameters (at least one type comparison decides the outcome)".into(),
+            rule: "every target (a name + the signature the generator knows it has, or 'nothing') x every Rust function type of the probe table, requested through Package::get_function; Ok iff parameter lists and return types are structurally equal descriptors; never a panic; handles obtained on the depth<=1 diagonal are called once. Script side: p_S/r_S for every S of the script grammar (quick: 132 G1 types + all 456 depth-2 nestings over the 6-leaf set; thorough: G1 + every type of depth <= 2 over the 6-leaf set with at most one non-leaf argument per binary constructor), 57 filtermaps with pinned payloads + 40 with payloads inferred from unannotated literals, 38 arity functions, tests, script-declared and shadowing types, a submodule. Rust side: fn(R) and fn() -> R for every R of the probe grammar (quick: G1 + the 24 types U<W<L>>, U, W in {Option, List}; thorough: G1 + 96 depth-2 types), 36 arity signatures, types unknown to the runtime. Second family of units (inferred payloads): a package of filtermaps for every (accept kind, reject kind, sides used) combination over 20 payload kinds built only from unannotated literals (5, -5, 5 + 1, 2 * 3, if, let-bound, 1.5, -1.5, Option.Some(..), [..], { a: 5 }, plus true and ()), with pinned controls (suffix, annotated let, declared return type, parameter), requested as fn() -> Verdict<A, R> for (A, R) in ALL36 x TRUE7, TRUE7 x ALL36 and NUM10 x NUM10 (ALL36 = 8 integer types, f32, f64, bool, (), Option of each, List of each; TRUE7 = i32, f64, Option/List of these, ()), and fn(u8) -> Verdict<u8, X>; exactly the signature with {integer} = i32 and {float} = f64 is handed out. Names derived from module keys that are not script functions (generated helpers) are requested under the flat signatures only. A pair is non-trivial when the name designates a script function and the requested type has the same number of parameters (at least one type comparison decides the outcome)".into(),
             assumptions: vec![
                 "the Rust-side descriptor of a type is derived by the harness's own Desc trait, the script-side descriptor by the generator; neither reads roto's TypeRegistry".into(),
                 "Rust types that implement roto::Value but are not nameable outside the crate (StringBytes, StringChars, StringLines, DynVal, VTable, ErasedList) cannot be requested through the public API and are not enumerated".into(),
-                "payload types the documentation leaves open (`accept 5`, `accept 1.5`, `accept Option.None`, `accept []`) are skipped for the Ok/Err oracle; they must not panic and must be retrievable under one Rust type at most".into(),
+                "an unannotated integer literal that nothing else constrains has type i32 and a float literal f64 at the boundary, because that is what the lowering fixes them to (typechecker/info.rs); the host cannot pick another width".into(),
+                "payloads whose type argument nothing determines (`accept Option.None`, `accept []`) are skipped for the Ok/Err oracle; they must not panic and must be retrievable under one Rust type at most".into(),
+                "the full 36 x 36 cross of Verdict<A, R> would be 1296 instantiations (~30 s of rustc); the table has every A against the 7 types a payload can really have, the converse, and the 10 x 10 numeric cross (519 probes)".into(),
+                "constants need a type annotation and cannot be fetched through the public API; filtermap payloads are the only inferred types at the boundary".into(),
                 "r_S is omitted for S = List of an enum with a () payload: constructing such a list panics the compiler (known defect N5, property C06)".into(),
                 "a `test` item is a function `fn() -> Verdict[(), ()]` named `test#<name>` (this is how the test runner retrieves it)".into(),
                 "the probe grammar is bounded by rustc time (about 25 ms per get_function instantiation); deeper types are only on the script side".into(),
@@ -428,7 +496,8 @@ impl Check for C04 {
                 "script_grammar_types": g.len(),
                 "probe_grammar_types": pg.len(),
                 "max_depth": g.iter().map(|t| t.depth()).max(),
-                "probes": self.n_probes(cfg.tier),
+                "probes": table(cfg.tier).len(),
+                "inferred_family": inferred_bounds(),
                 "static_targets": p.targets.len(),
                 "script_functions": p.targets.iter().filter(|t| t.expect != Expect::Nothing).count(),
                 "arity_signatures": genr::arity_sigs().len(),
@@ -481,8 +550,50 @@ impl Check for C04 {
                 }
             }
         }
+        // inferred-payload family: unique names, unique probes, and every
+        // payload kind has its true signature in the probe table
+        let probes = table_inferred();
+        let sigs: HashSet<(Vec<T>, T)> = probes.iter().map(|p| (p.params(), p.ret())).collect();
+        if sigs.len() != probes.len() {
+            return Err("inferred family: a probe is listed twice".into());
+        }
+        let mut names = HashSet::new();
+        for t in genr::inferred_package().targets {
+            if !names.insert(t.name.clone()) {
+                return Err(format!("inferred family: target name {:?} generated twice", t.name));
+            }
+        }
+        for k in genr::kinds() {
+            if matches!(k.ty, T::Alien(_)) {
+                continue;
+            }
+            for sig in [ty::ver(k.ty.clone(), ty::unit()), ty::ver(ty::unit(), k.ty.clone())] {
+                if !sigs.contains(&(vec![], sig.clone())) {
+                    return Err(format!("inferred family: no probe fn() -> {}", sig.rust()));
+                }
+            }
+        }
         Ok(())
     }
+}
+
+fn inferred_bounds() -> Value {
+    let probes = table_inferred();
+    let sigs: std::collections::HashSet<(Vec<T>, T)> = probes.iter().map(|p| (p.params(), p.ret())).collect();
+    let p = genr::inferred_package();
+    let funcs: Vec<&Target> = p.targets.iter().filter(|t| t.expect == Expect::Sig).collect();
+    let with_true_probe =
+        funcs.iter().filter(|t| t.sig.as_ref().is_some_and(|s| sigs.contains(&(s.params.clone(), s.ret.clone())))).count();
+    json!({
+        "payload_kinds": genr::kinds().iter().map(|k| format!("{}{}", k.pre, k.expr).replace("{v}", "x")).collect::<Vec<_>>(),
+        "probes": probes.len(),
+        "probes_per_unit": Fam::Inferred.ppu(),
+        "script_items": funcs.len(),
+        "items_inferred": funcs.iter().filter(|t| t.kind == "inferred").count(),
+        "items_pinned_controls": funcs.iter().filter(|t| t.kind == "pinned").count(),
+        "items_whose_true_signature_is_a_probe": with_true_probe,
+        "package_bytes": p.root.len(),
+    })
 }
 
 fn run_call(cx: &mut Cx, probe: &dyn Probe, t: &Target, sub_call: u64, call: Box<dyn FnOnce()>) {
